@@ -32,6 +32,7 @@ package queue
 //@ pred J4(s *MemoryStore) := forall l string :: l in s.leases ==> s.leases[l] in s.items && s.items[s.leases[l]].State == StateLeased && s.items[s.leases[l]].LeaseID == l
 //@ pred J5(s *MemoryStore) := forall id string :: id in s.items ==> validState(s.items[id].State)
 //@ pred J6(s *MemoryStore) := forall id string :: id in s.items ==> s.items[id].Attempt >= 0
+//@ pred J7(s *MemoryStore) := forall id string :: id in s.items ==> exists k int :: 0 <= k && k < len(s.order) && s.order[k] == id
 //@ pred wf(s *MemoryStore) := J0(s) && J1(s) && J2(s) && J3a(s) && J3b(s) && J4(s) && J5(s) && J6(s)
 
 //@ type MemoryStore monitor mu
@@ -44,6 +45,7 @@ package queue
 //@   inv [J4] J4(self)
 //@   inv [J5] J5(self)
 //@   inv [J6] J6(self)
+//@   inv [J7] J7(self)
 
 //@ func (*MemoryStore).requeueLocked
 //@   monitor locked
@@ -94,9 +96,10 @@ package queue
 
 //@ func (*MemoryStore).compactOrderLocked
 //@   monitor locked
-//@   trusted
-//@   requires s != nil
+//@   requires s != nil && J1(s) && J2(s) && J7(s)
 //@   modifies s.order
+//@   loop 1 invariant [kept_so_far] forall j int :: 0 <= j && j <= rangeindex && s.order[j] in s.items ==> exists k int :: 0 <= k && k < len(out) && out[k] == s.order[j]
+//@   ensures [C05:no_stored_id_dropped] J7(s)
 
 //@ func (*MemoryStore).Dequeue
 //@   requires s != nil
@@ -107,12 +110,14 @@ package queue
 //@   loop 2 invariant [wf_J5] J5(s)
 //@   loop 2 invariant [wf_J6] J6(s)
 //@   loop 2 invariant [cap] len(out) <= batch
+//@   loop 2 invariant [scanned_not_ready] forall k int :: 0 <= k && k <= rangeindex && s.order[k] in s.items ==> !dueFor(s.items[s.order[k]], req.Route, req.Target, now)
 //@   loop 2 invariant [partition] forall id string :: id in s.items ==> presame(s.items[id]) || (pre(dueFor(s.items[id], req.Route, req.Target, now)) && s.items[id].State == StateLeased && s.items[id].Attempt == pre(s.items[id].Attempt) + 1 && s.items[id].LeaseUntil == now + leaseTTL && s.items[id].NextRunAt == now + leaseTTL && s.items[id].LeaseID != "" && (let lid := s.items[id].LeaseID :: !pre(lid in s.leases)) && presameExcept(s.items[id], State, Attempt, LeaseID, LeaseUntil, NextRunAt))
 //@   loop 2 invariant [leases_grow] forall l string :: pre(l in s.leases) ==> l in s.leases && s.leases[l] == pre(s.leases[l])
 //@   loop 2 invariant [out_items] forall k int :: 0 <= k && k < len(out) ==> let e := s.items[out[k].ID] :: out[k].ID in s.items && e.Attempt == pre(e.Attempt) + 1 && e.State == StateLeased && out[k].State == StateLeased && out[k].LeaseID == e.LeaseID && out[k].Attempt == e.Attempt && out[k].LeaseUntil == e.LeaseUntil && out[k].Payload == e.Payload && out[k].Headers == e.Headers && out[k].Route == e.Route && out[k].Target == e.Target
 //@   loop 2 invariant [out_distinct] forall j int, k int :: 0 <= j && j < k && k < len(out) ==> out[j].ID != out[k].ID
 //@   ensures [C05:batch_cap] len(result0.Items) <= min(max(req.Batch, 1), 100)
 //@   ensures [no_error] result1 == nil
+//@   ensures [C05:short_batch_means_nothing_ready_left] let now := ite(req.Now != 0, req.Now, storeNow) :: len(result0.Items) < min(max(req.Batch, 1), 100) && req.MaxWait <= 0 ==> forall id string :: id in s.items ==> !dueFor(s.items[id], req.Route, req.Target, now)
 //@   ensures [C02:no_creation] forall id string :: id in s.items ==> old(id in s.items) && s.items[id] == old(s.items[id])
 //@   ensures [C02:removed_eligible] let now := ite(req.Now != 0, req.Now, storeNow) :: forall id string :: old(id in s.items) && !(id in s.items) ==> old(s.items[id].State) != StateCanceled && (old(s.items[id].State) != StateLeased || old(expiredAt(s.items[id], now)))
 //@   ensures [C02:transitions] let now := ite(req.Now != 0, req.Now, storeNow) :: forall id string :: id in s.items ==> let e := s.items[id] :: let lid := e.LeaseID :: same(e) || (old(expiredAt(e, now)) && released(e, now)) || (e.State == StateLeased && (old(e.State) == StateQueued || old(expiredAt(e, now))) && e.Attempt == old(e.Attempt) + 1 && immutableSame(e) && lid != "" && lid in s.leases && s.leases[lid] == id && (!old(lid in s.leases) || old(expiredAt(s.items[s.leases[lid]], now))))
@@ -399,6 +404,7 @@ package queue
 //@   ensures [C14:every_selected_allowed_message_changed] forall j int :: 0 <= j && j < len(req.IDs) && trim(req.IDs[j]) != "" && trim(req.IDs[j]) in s.items && old(requeueable(s.items[trim(req.IDs[j])].State)) ==> s.items[trim(req.IDs[j])].State == StateQueued
 //@   ensures [C14:count_equals_changes] result0.Requeued == card(setof(k string :: k in s.items && s.items[k].State != old(s.items[k].State))) && result0.Matched == result0.Requeued
 //@   ensures [no_error] result1 == nil
+//@   ensures [C05:short_batch_means_nothing_ready_left] let now := ite(req.Now != 0, req.Now, storeNow) :: len(result0.Items) < min(max(req.Batch, 1), 100) && req.MaxWait <= 0 ==> forall id string :: id in s.items ==> !dueFor(s.items[id], req.Route, req.Target, now)
 
 //@ func (*MemoryStore).RequeueDead
 //@   requires s != nil
@@ -420,6 +426,7 @@ package queue
 //@   ensures [C14:every_selected_allowed_message_changed] forall j int :: 0 <= j && j < len(req.IDs) && trim(req.IDs[j]) != "" && trim(req.IDs[j]) in s.items && old(s.items[trim(req.IDs[j])].State == StateDead) ==> s.items[trim(req.IDs[j])].State == StateQueued
 //@   ensures [C14:count_equals_changes] result0.Requeued == card(setof(k string :: k in s.items && s.items[k].State != old(s.items[k].State)))
 //@   ensures [no_error] result1 == nil
+//@   ensures [C05:short_batch_means_nothing_ready_left] let now := ite(req.Now != 0, req.Now, storeNow) :: len(result0.Items) < min(max(req.Batch, 1), 100) && req.MaxWait <= 0 ==> forall id string :: id in s.items ==> !dueFor(s.items[id], req.Route, req.Target, now)
 
 //@ func (*MemoryStore).DeleteDead
 //@   requires s != nil
@@ -439,6 +446,7 @@ package queue
 //@   ensures [C14:every_selected_dead_removed] forall j int :: 0 <= j && j < len(req.IDs) && trim(req.IDs[j]) != "" && old(trim(req.IDs[j]) in s.items) && old(s.items[trim(req.IDs[j])].State) == StateDead ==> !(trim(req.IDs[j]) in s.items)
 //@   ensures [C14:count_equals_changes] result0.Deleted == card(setof(k string :: old(k in s.items) && !(k in s.items)))
 //@   ensures [no_error] result1 == nil
+//@   ensures [C05:short_batch_means_nothing_ready_left] let now := ite(req.Now != 0, req.Now, storeNow) :: len(result0.Items) < min(max(req.Batch, 1), 100) && req.MaxWait <= 0 ==> forall id string :: id in s.items ==> !dueFor(s.items[id], req.Route, req.Target, now)
 
 // ---- C14: by-filter selection ----
 
@@ -498,6 +506,7 @@ package queue
 //@   ensures [C14:counts_equal_changes] !req.PreviewOnly ==> result0.Canceled == card(setof(id string :: id in s.items && s.items[id].State != old(s.items[id].State))) && result0.Matched == result0.Canceled
 //@   ensures [C14:matched_within_limit] result0.Matched <= effLimit(req.Limit)
 //@   ensures [no_error] result1 == nil
+//@   ensures [C05:short_batch_means_nothing_ready_left] let now := ite(req.Now != 0, req.Now, storeNow) :: len(result0.Items) < min(max(req.Batch, 1), 100) && req.MaxWait <= 0 ==> forall id string :: id in s.items ==> !dueFor(s.items[id], req.Route, req.Target, now)
 
 //@ func (*MemoryStore).RequeueMessagesByFilter
 //@   requires s != nil
@@ -522,6 +531,7 @@ package queue
 //@   ensures [C14:counts_equal_changes] !req.PreviewOnly ==> result0.Requeued == card(setof(id string :: id in s.items && s.items[id].State != old(s.items[id].State))) && result0.Matched == result0.Requeued
 //@   ensures [C14:matched_within_limit] result0.Matched <= effLimit(req.Limit)
 //@   ensures [no_error] result1 == nil
+//@   ensures [C05:short_batch_means_nothing_ready_left] let now := ite(req.Now != 0, req.Now, storeNow) :: len(result0.Items) < min(max(req.Batch, 1), 100) && req.MaxWait <= 0 ==> forall id string :: id in s.items ==> !dueFor(s.items[id], req.Route, req.Target, now)
 
 //@ spec
 //@ pred resumable(st State) := st == StateCanceled
@@ -549,3 +559,4 @@ package queue
 //@   ensures [C14:counts_equal_changes] !req.PreviewOnly ==> result0.Resumed == card(setof(id string :: id in s.items && s.items[id].State != old(s.items[id].State))) && result0.Matched == result0.Resumed
 //@   ensures [C14:matched_within_limit] result0.Matched <= effLimit(req.Limit)
 //@   ensures [no_error] result1 == nil
+//@   ensures [C05:short_batch_means_nothing_ready_left] let now := ite(req.Now != 0, req.Now, storeNow) :: len(result0.Items) < min(max(req.Batch, 1), 100) && req.MaxWait <= 0 ==> forall id string :: id in s.items ==> !dueFor(s.items[id], req.Route, req.Target, now)
